@@ -331,10 +331,11 @@ SchedResult run_tasks(const std::vector<std::function<void()>>& bodies, const Sc
 
 // Exposed to the wraps below.
 namespace detail {
-void mutex_lock_enter(const void* m) {
+void mutex_lock_enter(const void* m, bool recursive) {
   Task* t = g->tasks[g->cur];
   yield(Y_LOCK);
-  if (owner_of(m) == t->id) { depth_of(m)++; return; }   // recursive mutex re-entered by its owner
+  if (owner_of(m) == t->id && recursive) { depth_of(m)++; return; }   // recursive mutex re-entered by its owner
+  // (a non-recursive mutex locked again by its owner blocks below and is reported as a deadlock)
   while (owner_of(m) >= 0 || (owner_of(m) == -2)) {
     g->res->contended_locks++;
     t->st = T_BLOCKED;
@@ -409,7 +410,7 @@ int __real_pthread_once(pthread_once_t* once, void (*fn)(void));
 
 int __wrap_pthread_mutex_lock(pthread_mutex_t* m) {
   if (!sim::in_task()) return __real_pthread_mutex_lock(m);
-  { sim::HarnessScope hs; sim::detail::mutex_lock_enter(m); }
+  { sim::HarnessScope hs; sim::detail::mutex_lock_enter(m, (m->__data.__kind & 127) == PTHREAD_MUTEX_RECURSIVE_NP); }
   return __real_pthread_mutex_lock(m);  // never blocks: the simulated owner table says it is free
 }
 int __wrap_pthread_mutex_trylock(pthread_mutex_t* m) {
@@ -451,7 +452,7 @@ static int sim_cond_wait(pthread_cond_t* c, pthread_mutex_t* m, bool timed) {
     __real_pthread_mutex_unlock(m);
     sim::detail::mutex_release_for_wait(m);
     timed_out = sim::detail::cond_block(c, timed);   // parks; returns when signalled (or, timed, when nothing else could run)
-    sim::detail::mutex_lock_enter(m);
+    sim::detail::mutex_lock_enter(m, (m->__data.__kind & 127) == PTHREAD_MUTEX_RECURSIVE_NP);
   }
   __real_pthread_mutex_lock(m);
   return timed_out ? ETIMEDOUT : 0;
@@ -490,7 +491,7 @@ int __wrap_pthread_rwlock_rdlock(pthread_rwlock_t* l) {
 }
 int __wrap_pthread_rwlock_wrlock(pthread_rwlock_t* l) {
   if (!sim::in_task()) return __real_pthread_rwlock_wrlock(l);
-  { sim::HarnessScope hs; sim::detail::mutex_lock_enter(l); }
+  { sim::HarnessScope hs; sim::detail::mutex_lock_enter(l, false); }
   return __real_pthread_rwlock_wrlock(l);
 }
 int __wrap_pthread_rwlock_unlock(pthread_rwlock_t* l) {
@@ -498,6 +499,13 @@ int __wrap_pthread_rwlock_unlock(pthread_rwlock_t* l) {
   int r = __real_pthread_rwlock_unlock(l);
   { sim::HarnessScope hs; if (sim::owner_of(l) == -2) sim::detail::rw_unlock_leave(l); else sim::detail::mutex_unlock_leave(l); }
   return r;
+}
+// Thread identity: every task gets its own pthread_self() (and therefore its own std::this_thread::get_id()),
+// so that library code keyed on the caller's identity sees distinct callers, as it would with real threads.
+pthread_t __real_pthread_self(void);
+pthread_t __wrap_pthread_self(void) {
+  if (!sim::in_task()) return __real_pthread_self();
+  return static_cast<pthread_t>(0x7f5100001000ULL + static_cast<unsigned long>(sim::cur_task() + 1) * 0x4000ULL);
 }
 int __wrap_pthread_once(pthread_once_t* once, void (*fn)(void)) {
   sim::detail::guard_enter();
